@@ -2,6 +2,7 @@ package main
 
 import (
 	"fmt"
+	"reflect"
 	"sort"
 	"strings"
 
@@ -72,6 +73,76 @@ func (*lenDeep) UnmarshalCBOR([]byte) error { return nil }
 func (*lenDeep) UnmarshalJSON([]byte) error { return nil }
 func (*lenBad) UnmarshalCBOR([]byte) error  { return nil }
 func (*lenBad) UnmarshalJSON([]byte) error  { return nil }
+
+// three distinct claims types that print alike (reflect.Type.String() is "main.twinClaims" for each — a type's printed
+// name is not its identity): two with different profile members, one with no profile field at all
+type twinProfile struct {
+	name string
+	mk   func() psa.IClaims
+}
+
+func (p twinProfile) GetName() string        { return p.name }
+func (p twinProfile) GetClaims() psa.IClaims { return p.mk() }
+
+func mkTwinA() psa.IClaims {
+	type twinClaims struct {
+		psa.IClaims `cbor:"-" json:"-"`
+		Prof        *string `cbor:"265,keyasint" json:"twin-a-profile"`
+	}
+	return &twinClaims{}
+}
+func mkTwinB() psa.IClaims {
+	type twinClaims struct {
+		psa.IClaims `cbor:"-" json:"-"`
+		Prof        *string `cbor:"265,keyasint" json:"twin-b-profile"`
+	}
+	return &twinClaims{}
+}
+func mkTwinC() psa.IClaims {
+	type twinClaims struct {
+		psa.IClaims `cbor:"-" json:"-"`
+		X           *int64 `cbor:"1,keyasint" json:"x"`
+	}
+	return &twinClaims{}
+}
+
+// twinRegistrations: registration looks at the claims type it is given, not at one that merely prints the same.
+func twinRegistrations(r *Run) {
+	psa.VerifWithScratchRegistry(func() {
+		na, nb, nc := "http://example.com/psa/twin/a", "http://example.com/psa/twin/b", "http://example.com/psa/twin/c"
+		r.ImplOnly("twin-types", false, "twin-types "+fmt.Sprintf("%T %T %T", mkTwinA(), mkTwinB(), mkTwinC()))
+		if err := psa.RegisterProfile(twinProfile{na, mkTwinA}); err != nil {
+			r.Fail("register-outcome", fmt.Sprintf("registering the first twin type: %v", err))
+			return
+		}
+		if err := psa.RegisterProfile(twinProfile{nb, mkTwinB}); err != nil {
+			r.Fail("register-outcome", fmt.Sprintf("registering a second type that prints like the first: %v", err))
+			return
+		}
+		if err := psa.RegisterProfile(twinProfile{nc, mkTwinC}); err == nil {
+			r.Fail("register-outcome", "a claims type without a profile field was registered (a type printing the same was registered before)")
+		}
+		if _, err := psa.NewClaims(nc); err == nil {
+			r.Fail("new-claims", "NewClaims knows a profile whose registration must have failed")
+		}
+		if _, tag, ok := psa.VerifRegistryEntry(nb); !ok || tag != "twin-b-profile" {
+			r.Fail("registered-not-found", fmt.Sprintf("the second twin is stored with the profile member %q, its own is twin-b-profile", tag))
+		}
+		for _, tc := range []struct {
+			member, name string
+			want         psa.IClaims
+		}{{"twin-a-profile", na, mkTwinA()}, {"twin-b-profile", nb, mkTwinB()}} {
+			doc := fmt.Sprintf(`{%q:%q}`, tc.member, tc.name)
+			for rep := 0; rep < 8; rep++ {
+				c, err := psa.DecodeClaimsFromJSON([]byte(doc))
+				if err != nil || reflect.TypeOf(c) != reflect.TypeOf(tc.want) {
+					r.Fail("frame", fmt.Sprintf("a JSON token declaring %s under its member %s is decoded as %T (%v)", tc.name, tc.member, c, err))
+					break
+				}
+			}
+		}
+	})
+}
 
 var lenTags = []string{"eat-profile", "psa-profile", "my-profile", "other-profile", "named-profile", "deep-profile"}
 
@@ -382,6 +453,7 @@ func runC16(r *Run, rng *Rng, thorough bool) {
 		}
 	}
 	c16Instances(r, rng, thorough)
+	twinRegistrations(r)
 }
 
 // c16Instances: every call that creates or decodes claims returns a fresh instance sharing no mutable state
